@@ -319,7 +319,7 @@ theorem build_settings_amorph (c : IndCfg F) (fn : AnaFn) (args : SDict F) (hc :
   have ht : (SVal.str fn.name : SVal F).truthy = true := by simp [SVal.truthy, anaName_ne_empty]
   rw [hset]
   simp only [build, getTruthy, dlookup_cons, h1, Option.filter, ht, if_true, ofMapKey_name hin, derase]
-  simp only [show ("analysis" = "indicator") = False by simp, if_false, Option.filter]
+  simp only [show ("analysis" = "indicator") = False by simp, if_false]
   -- the constructor
   have hder1 : derase "analysis" (c.amorphEntries ++ truthyE "args" (some (SVal.dict args)))
       = c.amorphEntries ++ truthyE "args" (some (SVal.dict args)) := by
@@ -352,22 +352,161 @@ theorem build_settings_amorph (c : IndCfg F) (fn : AnaFn) (args : SDict F) (hc :
     have : dlookup "candles" c.amorphEntries = none :=
       dlookup_none_of_keys _ _ (hne _ (by decide))
     simp [candlesOk, this]
-  have hkw : (match dlookup "args" (truthyE "args" (some (SVal.dict args))) with
-      | some (.dict a) => dupdate ([] : SDict F) a
-      | _ => []) = args := by
-    cases args with
-    | nil => simp [truthyE, SVal.truthy]
-    | cons p r =>
-      simp only [truthyE, SVal.truthy, List.isEmpty_cons, Bool.not_false, if_true, dlookup_cons]
-      rw [dupdate_fresh [] _ hnd (by simp)]
-      simp
-  simp only [constructAmorph, hder1, hargsV, hder2, hfa, hfi, hall, hcand, hkw,
+  simp only [constructAmorph, hder1, hargsV, hder2, hfa, hfi, hall, hcand,
     readBase_amorphEntries c ho hs hr hl htf', postInit_amorph c _ htf, bind, Except.bind, Bool.not_true]
   obtain ⟨cls0, o, s, r, tf, fill, life, cs⟩ := c
   simp only at hc
   subst hc
-  simp [hkw]
+  simp only [Bool.false_eq_true, if_false, Except.ok.injEq, IndCfg.mk.injEq, Cls.amorph.injEq, true_and, and_true]
+  cases args with
+  | nil => simp [truthyE, SVal.truthy]
+  | cons p r =>
+    simp only [truthyE, SVal.truthy, List.isEmpty_cons, Bool.not_false, if_true, dlookup_cons]
+    rw [dupdate_fresh [] _ hnd (by simp)]
+    simp
 
 end amorph
+
+/-! ### the round trip -/
+
+section main
+variable [PyF F]
+
+/-- **`settings` determines the object**: an indicator rebuilt by `Hexital._build_indicator` from the dict its
+`settings` property returns is the same object (class, parameters and every public field) -/
+theorem build_settings (c : IndCfg F) (h : c.Valid) : build c.settings = .ok c := by
+  cases hc : c.cls <;>
+    first
+    | exact build_settings_amorph c _ _ hc h
+    | exact build_settings_std c h (fun fn args he => by rw [hc] at he; cases he)
+
+/-- … hence the same tree and name (for whatever `str(multiplier)` is) -/
+theorem build_settings_toInd (c : IndCfg F) (h : c.Valid) (mulStr : String) :
+    (build c.settings).map (fun c' => c'.toInd mulStr) = .ok (c.toInd mulStr) := by
+  rw [build_settings c h]; rfl
+
+/-- … and the same manager configuration -/
+theorem build_settings_mgrCfg (c : IndCfg F) (h : c.Valid) :
+    (build c.settings >>= fun c' => c'.mgrCfg) = c.mgrCfg := by
+  rw [build_settings c h]; rfl
+
+/-! ### the negative facts -/
+
+/-- a dict with neither "indicator" nor "analysis": `InvalidAnalysis` -/
+theorem build_missing_key (d : SDict F) (h1 : dlookup "indicator" d = none) (h2 : dlookup "analysis" d = none) :
+    build d = .error .invalidConfig := by
+  simp [build, getTruthy, h1, h2]
+
+/-- … also when the keys are there but falsy (`if indicator.get("indicator")`) -/
+theorem build_falsy_key (d : SDict F) (h1 : getTruthy d "indicator" = none) (h2 : getTruthy d "analysis" = none) :
+    build d = .error .invalidConfig := by
+  simp [build, h1, h2]
+
+theorem mem_derase {α : Type} (k k' : String) (v : α) (l : List (String × α)) (h : (k, v) ∈ l) (hk : k ≠ k') :
+    (k, v) ∈ derase k' l := by
+  induction l with
+  | nil => simp at h
+  | cons p r ih =>
+    obtain ⟨k2, v2⟩ := p
+    by_cases h2 : k2 = k'
+    · simp only [derase, if_pos h2]
+      rcases List.mem_cons.mp h with he | he
+      · cases he; exact absurd h2 hk
+      · exact ih he
+    · simp only [derase, if_neg h2]
+      rcases List.mem_cons.mp h with he | he
+      · rw [he]; simp
+      · exact List.mem_cons_of_mem _ (ih he)
+
+/-- a keyword the class does not have: `TypeError` (for every class reached through "indicator") -/
+theorem build_unknown_keyword (d : SDict F) (name : String) (pc : PyClass F)
+    (hname : dlookup "indicator" d = some (.str name)) (hne : name ≠ "") (hna : name ≠ "Amorph")
+    (hmap : indicatorMap name = some pc)
+    (k : String) (v : SVal F) (hk : (k, v) ∈ d) (hki : k ≠ "indicator") (hkn : k ∉ initKeys ++ pc.keys) :
+    build d = .error .typeError := by
+  have ht : (SVal.str name : SVal F).truthy = true := by simp [SVal.truthy, hne]
+  have hall : (derase "indicator" d).all (fun kv => decide (kv.1 ∈ initKeys ++ pc.keys)) = false := by
+    rw [List.all_eq_false]
+    exact ⟨(k, v), mem_derase _ _ _ _ hk hki, by simpa using hkn⟩
+  simp only [build, getTruthy, hname, Option.filter, ht, if_true, hna, if_false, hmap, construct, hall]
+  rfl
+
+end main
+
+/-! ### the domain is inhabited by the ordinary objects -/
+
+example : ({ cls := .macd 12 26 9 "close" } : IndCfg F).Valid := by rfl
+example : ({ cls := .ema "close" 10 (.int 2), timeframe := some "T5", timeframe_fill := true,
+             candlestick_type := some .ha, candles_lifespan := some 3600, name_suffix := some "" } : IndCfg F).Valid := by rfl
+example : ({ cls := .amorph .rising [("indicator", .str "close"), ("length", .int 3)], timeframe := some "H1",
+             round_value := 2 } : IndCfg F).Valid := by rfl
+example : ({ cls := .amorph .invertedHammer [] } : IndCfg F).Valid := by rfl
+example : ¬ ({ cls := .ema "close" 10 (.int 2), timeframe := some "t5" } : IndCfg F).Valid := by
+  intro h; cases h
+
+/-! ### what `settings` does NOT determine (each excluded from `Valid`, each witnessed) -/
+
+section counterexamples
+variable [PyF F]
+
+/-- `Indicator.settings` skips `timeframe_fill` when there is no timeframe: the rebuilt object has the default -/
+theorem fill_without_timeframe_counterexample :
+    let c : IndCfg F := { cls := .sma 10 "close", timeframe_fill := true }
+    ¬ c.Valid ∧ build c.settings = .ok { c with timeframe_fill := false } := by
+  intro c
+  exact ⟨fun h => (by cases h), rfl⟩
+
+/-- `Amorph.settings` keeps truthy values only, so `round_value = 0` is lost: the rebuilt Amorph rounds to 4 places -/
+theorem amorph_round_zero_counterexample :
+    let c : IndCfg F := { cls := .amorph .highest [("indicator", .str "close")], round_value := 0 }
+    ¬ c.Valid ∧ build c.settings = .ok { c with round_value := 4 } := by
+  intro c
+  exact ⟨fun h => (by cases h), rfl⟩
+
+/-- … and a zero lifespan (`timedelta(0)` is falsy) -/
+theorem amorph_zero_lifespan_counterexample :
+    let c : IndCfg F := { cls := .amorph .positive [], candles_lifespan := some 0 }
+    ¬ c.Valid ∧ build c.settings = .ok { c with candles_lifespan := none } := by
+  intro c
+  exact ⟨fun h => (by cases h), rfl⟩
+
+/-- … and an empty override / suffix (harmless: `_internal_generate_name` tests truthiness too) -/
+theorem amorph_empty_suffix_counterexample :
+    let c : IndCfg F := { cls := .amorph .positive [], name_suffix := some "" }
+    ¬ c.Valid ∧ build c.settings = .ok { c with name_suffix := none }
+      ∧ ∀ ms, (c.toInd ms).name = (({ c with name_suffix := none } : IndCfg F).toInd ms).name := by
+  intro c
+  exact ⟨fun h => (by cases h), rfl, fun ms => rfl⟩
+
+/-- an Amorph over a function that is in neither map (`above`, `below`, any user function) names it in its
+settings, and the dict cannot be built -/
+theorem amorph_unmapped_function_counterexample :
+    let c : IndCfg F := { cls := .amorph .above [("indicator", .str "close"), ("indicator_two", .str "open")] }
+    ¬ c.Valid ∧ build c.settings = .error .invalidConfig := by
+  intro c
+  exact ⟨fun h => (by cases h), rfl⟩
+
+/-- a public field holding `None` is not emitted: `Counter(count_value=None)` comes back with the default -/
+theorem counter_none_counterexample :
+    let c : IndCfg F := { cls := .counter "close" .none }
+    ¬ c.Valid ∧ build c.settings = .ok { c with cls := .counter "close" (.bool true) } := by
+  intro c
+  exact ⟨fun h => (by cases h), rfl⟩
+
+/-- an unknown keyword of an Amorph is NOT an error: it becomes an analysis keyword … -/
+example : build ([("analysis", .str "rising"), ("bogus", .int 1)] : SDict F)
+    = .ok { cls := .amorph .rising [("bogus", .int 1)] } := by rfl
+/-- … unless it is a non-`init` attribute of `Indicator` -/
+example : build ([("analysis", .str "rising"), ("sub_indicators", .none)] : SDict F) = .error .typeError := by rfl
+/-- the analysis keyword `indicator` cannot be written at the top level of the dict: it is taken for the class name -/
+example : build ([("analysis", .str "rising"), ("indicator", .str "close")] : SDict F) = .error .invalidConfig := by rfl
+example : build ([("indicator", .str "EMA"), ("perod", .int 3)] : SDict F) = .error .typeError := by rfl
+example : build ([("period", .int 3)] : SDict F) = .error .invalidConfig := by rfl
+/-- defaults, MACD ordering, timeframe upper-casing -/
+example : build ([("indicator", .str "MACD"), ("fast_period", .int 30), ("timeframe", .str "t5")] : SDict F)
+    = .ok { cls := .macd 26 30 9 "close", timeframe := some "T5" } := by
+  rfl
+
+end counterexamples
 
 end Hex.Settings
